@@ -7,7 +7,7 @@
    blockImporter.importBlock in their order.  An EOrphan event is a block handed to the
    importer while its parent header is unknown; EDup a header handed over although the block
    state has it; EImport s the execution and storing of the block with stated hash s. *)
-From Coq Require Import NArith ZArith List Bool Lia.
+From Coq Require Import NArith ZArith List Bool Lia Permutation Sorted.
 From Common Require Import Outcome.
 From C32 Require Import Gen Model ModelSpec ProofsChain ProofsImport ProofsProcess ProofsHistory.
 Import ListNotations.
@@ -50,6 +50,50 @@ Proof.
 Qed.
 Print Assumptions C32_history_safe_from.
 
+(* The same for ANY order the library sort leaves the ready fragments in, and without the bound
+   of 12 fragments.  [srt] stands for what slices.SortFunc does to the slice of fragments; the only
+   thing assumed of it is that it returns a permutation of its argument (the model's own
+   sort_frags is one: C32_model_sort_is_a_sort).  Stated directly on the events of the run:
+   for every bad-block list and every history whose requests ask for bodies,
+   - no Process call panics and none returns an error,
+   - no event of the importer, over the whole history, is EOrphan (block handed over while its
+     parent header is unknown) or EDup (header handed over although the block state has it),
+   - the stated hashes of the EImport events are pairwise distinct (nothing is imported twice),
+   - history_ok_b holds (the predicate the driver evaluates on the Go observables). *)
+Theorem C32_parents_first_never_twice_any_sort :
+  forall srt : list (list bdata) -> list (list bdata), (forall l, Permutation (srt l) l) ->
+  forall bad root steps, steps_body_b steps = true ->
+  exists outs stf,
+    run_with srt true true true bad (init_state root) steps = (outs, false, stf)
+    /\ length outs = length steps
+    /\ Forall (fun o => match o with Some r => pr_error r = false | None => True end) outs
+    /\ Forall (fun e => match e with EOrphan _ | EDup _ => False | _ => True end) (all_events outs)
+    /\ NoDup (imports_of (all_events outs))
+    /\ history_ok_b [] steps (observe bad steps outs) = true.
+Proof. exact parents_first_any_sort. Qed.
+Print Assumptions C32_parents_first_never_twice_any_sort.
+
+(* the precondition of C32_history_safe implies the one above, and run is run_with sort_frags *)
+Theorem C32_wf_implies_body : forall steps, steps_wf_b steps = true -> steps_body_b steps = true.
+Proof. exact steps_wf_body. Qed.
+Print Assumptions C32_wf_implies_body.
+
+(* the model's sort_frags (what the extracted model runs; insertion sort, as slices.SortFunc is up
+   to 12 elements) returns a permutation of its argument ordered by the number of the first block *)
+Theorem C32_model_sort_is_a_sort : forall l,
+  Permutation (sort_frags l) l
+  /\ StronglySorted (fun a b => first_num a <= first_num b) (sort_frags l).
+Proof. intro l. split; [apply sort_frags_perm|apply sort_frags_sorted]. Qed.
+Print Assumptions C32_model_sort_is_a_sort.
+
+(* validateResults of the repaired code never panics, whatever the results (no precondition) *)
+Theorem C32_validate_never_panics : forall bad rs,
+  (forall r, classify true true true bad r <> VPanic)
+  /\ (exists v, validate_results true true true bad rs (mkval [] [] []) = Ok v)
+  /\ (exists acc, accepted true true true bad rs = Some acc /\ rejections_ok_b rs acc = true).
+Proof. exact validate_never_panics. Qed.
+Print Assumptions C32_validate_never_panics.
+
 (* what the event check means *)
 Theorem C32_events_meaning : forall evs imp imp',
   events_ok_b imp evs = (true, imp') ->
@@ -68,6 +112,14 @@ Theorem C32_reject_forged_or_unlinked : forall frg lg bad r,
   must_reject r = true -> forall q resp, classify true frg lg bad r <> VAccept q resp.
 Proof. exact must_reject_not_accepted. Qed.
 Print Assumptions C32_reject_forged_or_unlinked.
+
+(* the literal constants of the Go source the examples below (and the harness) rely on, re-read
+   from dot/network/messages/block.go on every run (Gen.v) *)
+Example C32_consts :
+  f_header = 1 /\ f_body = 2 /\ dir_desc = 1 /\ Z.to_N Gen.dir_ascending = 0
+  /\ Z.to_N Gen.requested_data_justification = 16 /\ Z.to_N Gen.bootstrap_request_data = 19
+  /\ Z.to_N Gen.max_blocks_in_response = 128.
+Proof. vm_compute. repeat split; reflexivity. Qed.
 
 (* ---- non-vacuity: a fork tree  0 <- 1 <- 2 <- 3,  1 <- 4 <- 5; responses arrive split, out of
    order and duplicated; block 5's fragment waits as a disjoint fragment until 4 arrives *)
@@ -91,6 +143,47 @@ Example C32_example :
     /\ u_disjoint (p_un st) = []
   | _ => False
   end.
+Proof. vm_compute. repeat split; reflexivity. Qed.
+
+(* the same history when the "sort" reverses the fragments instead: another order of the
+   importer calls, still parents first *)
+Example C32_example_other_sort :
+  steps_body_b ex_history = true /\
+  (forall l : list (list bdata), Permutation (rev l) l) /\
+  match run_with (@rev (list bdata)) true true true [] (init_state 0) ex_history with
+  | ([Some r1; Some r2], false, st) =>
+    pr_events r1 = [EImport 1; EImport 2; EImport 3; ESkip 2; ESkip 3]
+    /\ pr_events r2 = [EImport 4; EImport 5]
+  | _ => False
+  end.
+Proof.
+  split; [reflexivity|]. split; [intro l; apply Permutation_sym, Permutation_rev|].
+  vm_compute. split; reflexivity.
+Qed.
+
+(* a body-only answer completing four announced blocks listed out of number order (3, then the
+   fork 5-6, then 4), blocks 1 and 2 known: the fork goes first, parents before children *)
+Example C32_body_batch_example :
+  let H3' := hd 3 2 3 in let H4' := hd 4 3 4 in let H5' := hd 5 0 1 in let H6' := hd 6 5 2 in
+  let hist := [ SKnown 1; SKnown 2; SAnnounce H3'; SAnnounce H5'; SAnnounce H6'; SAnnounce H4';
+                SProcess [ mkres 0 true (mkreq 18 0)
+                  [ mkbd 3 None true false; mkbd 5 None true false; mkbd 6 None true false;
+                    mkbd 4 None true false ] ] ] in
+  steps_wf_b hist = true /\
+  match run true true true [] (init_state 0) hist with
+  | ([None; None; None; None; None; None; Some r], false, _) =>
+    pr_events r = [EImport 5; EImport 6; EImport 3; EImport 4] /\ pr_error r = false
+  | _ => False
+  end.
+Proof. vm_compute. repeat split; reflexivity. Qed.
+
+(* responses that must be rejected because a requested header is missing or a link is broken *)
+Example C32_must_reject_examples :
+  must_reject (mkres 1 true (mkreq 19 0) [ mkbd 1 None true false ]) = true
+  /\ must_reject (res 1 [blk H1; blk H3]) = true
+  /\ must_reject (mkres 1 true (mkreq 19 1) [blk H1; blk H2]) = true   (* descending, sent ascending *)
+  /\ must_reject (mkres 1 true (mkreq 19 1) [blk H2; blk H1]) = false
+  /\ must_reject (mkres 1 true (mkreq 18 0) [ mkbd 1 None true false ]) = false.
 Proof. vm_compute. repeat split; reflexivity. Qed.
 
 (* a forged response: block 3's header under a stated hash 77, linked "correctly" to a made-up
